@@ -216,8 +216,28 @@ def generate(rs, mode, tier, index):
         if rng.coin(0.25):
             ops.append({"noise": rng.choice(["mean_width", "sample_other", "np_global"]),
                         "seed": rng.integers(0, 5)})
+        if sysd is not None and rng.coin(0.2):
+            # the system's registered values change between sampling calls: later samples
+            # must lie in the *current* gamut
+            kind = rng.choice(["K", "baseline", "ub", "sysadapt"])
+            if kind == "K":
+                val = sig(rng.uniform(0.3, 2.0, sysd["n_rec"]))
+            elif kind == "baseline":
+                val = sig(rng.uniform(0.05, 0.6, sysd["n_rec"]))
+            elif kind == "ub":
+                val = sig(rng.uniform(1.0, 6.0, sysd["n_src"]))
+            else:
+                val = sig(rng.uniform(0.3, 1.0, sysd["n_src"]))
+            ops.append({"mut": kind, "value": val})
     if pending_uniform:
         ops.append(uniform_call())
+    last_mut = -1
+    for i, op in enumerate(ops):
+        if "mut" in op:
+            last_mut = i
+        elif "call" in op and op["call"].get("t") == "est" and \
+                op["call"].get("repeat_of", 10 ** 9) < last_mut:
+            op["call"].pop("repeat_of")     # the system changed in between
     return {"check": ID, "run_seed": rs, "mode": mode, "dim": dim, "clouds": clouds,
             "sys": sysd, "ops": ops, "cut_seed": rng.integers(0, 2 ** 31)}
 
@@ -353,7 +373,8 @@ def execute(plan):
 
     dim = plan["dim"]
     clouds = {k: np.array(v["P"], copy=True) for k, v in plan["clouds"].items()}
-    sysd = plan["sys"]
+    ref_clouds = {k: np.array(v["P"], copy=True) for k, v in plan["clouds"].items()}
+    sysd = None if plan["sys"] is None else dict(plan["sys"])
     est = None
     if sysd is not None:
         est = _dreye.ReceptorEstimator(sysd["F"], domain=1.0, K=sysd["K"],
@@ -374,6 +395,27 @@ def execute(plan):
                 for k in perturbed_since:
                     perturbed_since[k] = True
                 log.add(oi, "px", op["px"])
+                continue
+            if "mut" in op:
+                v = np.array(op["value"], copy=True)
+                if op["mut"] == "K":
+                    est.register_adaptation(v)
+                    sysd["K"] = op["value"]
+                elif op["mut"] == "baseline":
+                    est.register_baseline(v)
+                    sysd["baseline"] = op["value"]
+                elif op["mut"] == "ub":
+                    est.register_bounds(ub=v)
+                    sysd["ub"] = op["value"]
+                else:
+                    est.register_system_adaptation(v)
+                    Q0, A0, _, _ = gamut_vertices(dict(sysd, K=1.0, baseline=0.0), False)
+                    sysd["K"] = 1.0 / (A0 @ np.asarray(op["value"], float)
+                                       + np.asarray(sysd["baseline"], float))
+                bump("fault:registered_values_changed_between_calls")
+                for k in perturbed_since:
+                    perturbed_since[k] = True
+                log.add(oi, "mut", op["mut"])
                 continue
             if "noise" in op:
                 # unrelated consumers of randomness between two sampling calls
@@ -399,10 +441,11 @@ def execute(plan):
                 out = call(est.sample_in_gamut, n=n, seed=seed, engine=eng, l1=c.get("l1"),
                            relative=rel)
             else:
-                Pm = clouds[c["t"]]
+                Pm = ref_clouds[c["t"]]        # oracles use the caller's original cloud
                 d_out = dim
                 eng = make_engine(c["engine"], dim + 1)
-                out = call(_dreye.sample_in_hull, Pm, n, seed=seed, engine=eng)
+                # the *same* array object is handed to every call on this cloud
+                out = call(_dreye.sample_in_hull, clouds[c["t"]], n, seed=seed, engine=eng)
             log.add(oi, "call", out)
             sk = seed_kind(c["seed"])
             if sk == "scripted":
@@ -413,6 +456,10 @@ def execute(plan):
                                 f"sampling call {c} raised {out.brief()}", call=c, op=oi,
                                 exc=out.value)
             Sm = np.asarray(out.value)
+            if c["t"] != "est" and not np.array_equal(clouds[c["t"]], ref_clouds[c["t"]]):
+                raise Violation(ID, "caller_cloud_modified",
+                                f"the point cloud passed to {c} was modified in place (later "
+                                f"calls on it sample another hull)", call=c, op=oi)
             # ---- count / finiteness ----
             if Sm.shape != (n, d_out):
                 raise Violation(ID, "wrong_count", f"asked for {n} samples in {d_out} dims, got "
